@@ -73,6 +73,8 @@ type Op struct {
 // Case is one sequence.
 type Case struct {
 	Init string `json:"init"` // absent | empty | populated
+	// RootSpelling: how the plugin root is handed to the manager ("" absolute, "relative")
+	RootSpelling string `json:"rootSpelling,omitempty"`
 	Ops  []Op   `json:"ops"`
 }
 
@@ -84,7 +86,7 @@ type installed struct {
 
 type machine struct {
 	rec        *stats.Recorder
-	base, root string
+	top, base, root string
 	mgr        *plugin.CLIManager
 	model      map[string]*installed
 	static     []Entry // entries placed by the harness that no operation targets
@@ -431,7 +433,7 @@ func (m *machine) install(rt *rapid.T) {
 	}
 	src := m.genSrc(rt)
 	if src.Kind == "dir" || src.Kind == "file" {
-		src.Spelling = rp.Pick(rt, "pathSpelling", "", "", "", "trailing-slash", "double-slash", "dot-segment", "up-and-down")
+		src.Spelling = rp.Pick(rt, "pathSpelling", "", "", "", "trailing-slash", "double-slash", "dot-segment", "up-and-down", "relative", "relative")
 		if src.Kind == "file" && (src.Spelling == "trailing-slash" || src.Spelling == "up-and-down") {
 			src.Spelling = "double-slash" // a file cannot be followed by a separator
 		}
@@ -817,12 +819,23 @@ func (m *machine) invariant(rt *rapid.T) {
 }
 
 func newMachine(rt *rapid.T, rec *stats.Recorder) *machine {
-	base, err := os.MkdirTemp("", "c20-")
+	top, err := os.MkdirTemp("", "c20-")
 	if err != nil {
 		rt.Fatalf("harness: %v", err)
 	}
-	m := &machine{rec: rec, base: base, root: filepath.Join(base, "plugins"), model: map[string]*installed{}}
-	m.mgr = plugin.NewCLIManager(dir.NewSysFS(m.root))
+	// two levels below the temporary directory: a relative spelling of a path in here, evaluated
+	// from another directory than the working directory, does not by accident lead back here
+	base := filepath.Join(top, "n1", "n2")
+	if err := os.MkdirAll(base, 0o755); err != nil {
+		rt.Fatalf("harness: %v", err)
+	}
+	m := &machine{rec: rec, top: top, base: base, root: filepath.Join(base, "plugins"), model: map[string]*installed{}}
+	// the plugin root as the caller spells it: absolute, or relative to the working directory
+	m.c.RootSpelling = rp.Pick(rt, "rootSpelling", "", "", "relative")
+	m.mgr = plugin.NewCLIManager(dir.NewSysFS(spell(m.root, m.c.RootSpelling, true)))
+	if m.c.RootSpelling != "" {
+		m.cls("plugin-root-spelt-relative")
+	}
 	m.c.Init = rp.Pick(rt, "init", "absent", "empty", "populated")
 	switch m.c.Init {
 	case "empty":
@@ -840,7 +853,7 @@ func newMachine(rt *rapid.T, rec *stats.Recorder) *machine {
 		}
 	}
 	if err != nil {
-		os.RemoveAll(base)
+		os.RemoveAll(top)
 		rt.Fatalf("harness: %v", err)
 	}
 	return m
@@ -856,7 +869,7 @@ func TestC20_Sequences(t *testing.T) {
 	_ = flag.Set("rapid.steps", "12")
 	rp.Check(t, 1200, 25000, func(rt *rapid.T) {
 		m := newMachine(rt, rec)
-		defer os.RemoveAll(m.base)
+		defer os.RemoveAll(m.top)
 		rt.Repeat(map[string]func(*rapid.T){
 			"":          m.invariant,
 			"install-a": m.install,
